@@ -68,6 +68,12 @@ def scenarios():
 SC = scenarios()
 
 
+def sockaddr(fam, a):
+    """the a-th resolved address: IPv4 results are (host, port), IPv6 results (host, port, flowinfo, scope_id)"""
+    v6 = fam == 'v6' or (fam == 'v6-first' and a % 2 == 0) or (fam == 'v4-first' and a % 2 == 1)
+    return ('2001:db8::%d' % (a + 1), 80, 0, a % 3) if v6 else ('10.0.0.%d' % (a + 1), 80)
+
+
 def make_world(sc, faults=None, rx_limit=None, addrs=None, cuts=None):
     hs = c04.HS_DEFLATE if sc.get('z') else c04.HS_PLAIN
     if cuts is None and sc.get('cutsteps'):
@@ -138,7 +144,8 @@ def cases(tier, seed, i, n):
             for j in range(0, naddr + 1):
                 for how in ('refused', 'timeout', 'sockfail'):
                     for name in ('text-exchange', 'client-close'):
-                        yield dict(kind='addr', sc=name, naddr=naddr, j=j, how=how)
+                        for fam in ('v4', 'v6', 'v6-first', 'v4-first'):
+                            yield dict(kind='addr', sc=name, naddr=naddr, j=j, how=how, fam=fam)
         rnd = random.Random(seed * 3571 + 9)
         names = sorted(SC)
         for _ in range(2000 if tier == 'quick' else 1500000):
@@ -154,7 +161,8 @@ def cases(tier, seed, i, n):
         for naddr in (2, 3):
             for first_ok in range(naddr):
                 for second_ok in range(naddr):
-                    yield dict(kind='addr-reconnect', naddr=naddr, first_ok=first_ok, second_ok=second_ok)
+                    for fam in ('v4', 'v6-first', 'v4-first'):
+                        yield dict(kind='addr-reconnect', naddr=naddr, first_ok=first_ok, second_ok=second_ok, fam=fam)
         for bfault in ('eof', 'reset', 'protocol-error', 'server-close'):
             for astuck in ('app-send', 'app-ping', 'app-close'):
                 yield dict(kind='twoconn', bfault=bfault, astuck=astuck)
@@ -194,7 +202,7 @@ def run_case(case, acc):
         hit = bool(w.faults_hit)
         acc.count2('oracle', 'double_fault_runs')
     else:
-        addrs = [((case['how'] if a < case['j'] else 'ok'), ('10.0.0.%d' % (a + 1), 80)) for a in range(case['naddr'])]
+        addrs = [((case['how'] if a < case['j'] else 'ok'), sockaddr(case.get('fam', 'v4'), a)) for a in range(case['naddr'])]
         run, w = run_sc(sc, addrs=addrs)
         hit = True
         acc.count2('oracle', 'multi_address_runs')
@@ -215,7 +223,7 @@ def run_case(case, acc):
         elif k == 'offset':
             acc.cls('%s/off%d/%s' % (case['sc'], case['off'], case['fault']))
         elif k == 'addr':
-            acc.cls('addr/%s/%d/%d/%s' % (case['sc'], case['naddr'], case['j'], case['how']))
+            acc.cls('addr/%s/%d/%d/%s/%s' % (case['sc'], case['naddr'], case['j'], case['how'], case.get('fam', 'v4')))
         else:
             acc.cls('double/%s/%s/%s' % (case['sc'], case['f1'], case['f2']))
         if acc.evaluations % 307 == 1:
@@ -460,7 +468,7 @@ def run_addr_reconnect(case, acc):
     sc = SC['text-exchange']
 
     def addrs(ok_index):
-        return [('ok' if a == ok_index else 'refused', ('10.0.0.%d' % (a + 1), 80)) for a in range(n)]
+        return [('ok' if a == ok_index else 'refused', sockaddr(case.get('fam', 'v4'), a)) for a in range(n)]
 
     w1 = H.World(H.hs_server(sc['steps']), addrs=addrs(case['first_ok']))
     r1 = H.drive(w1, connect_kwargs=sc['ckw'], policy=H.TablePolicy(sc['policy']))
@@ -487,4 +495,4 @@ def run_addr_reconnect(case, acc):
         acc.violation(key, 'C09 %s: %d addresses, first attempt: #%d accepts, second attempt: #%d accepts' % (
             key, n, case['first_ok'], case['second_ok']), case, detail)
     else:
-        acc.cls('addr-reconnect/%d/%d/%d' % (n, case['first_ok'], case['second_ok']))
+        acc.cls('addr-reconnect/%d/%d/%d/%s' % (n, case['first_ok'], case['second_ok'], case.get('fam', 'v4')))
